@@ -757,7 +757,8 @@ pub fn plan(w: &mut World, p: &Profile, prop: &str) -> Plan {
     let mut bulk = 0;
     let bulk_every = if prop == "C14" { 6 } else { 25 };
     if !vec_source && prop != "C02" && !crate::gen::small() && w.ch.draw("co.bulk", bulk_every) == bulk_every - 1 {
-        bulk = 65 + w.ch.draw("co.bulk.n", 70);
+        // usually 65..135 items; one bulk run in four has 250..330 (beyond any 8-bit item counter or index)
+        bulk = if w.ch.draw("co.bulk.big", 4) == 3 { 250 + w.ch.draw("co.bulk.n", 80) } else { 65 + w.ch.draw("co.bulk.n", 70) };
         let mut script = vec![Step::Item; bulk as usize];
         // after the burst the source pauses (and later ends), or stalls for good: then every completion is pulled by
         // one and the same `progress` call
